@@ -34,6 +34,9 @@
                         white-space free (a white-space character kills them), or the set after one `/`, or exactly
                         the inside of a string / of a comment / of a white-space run (a white-space character leaves
                         the set as it is); the table-specific facts are checked by computation below.
+     C14_respace        (Lex/WsInsert.v) the same for ANY NUMBER of places at once and for REPLACING white space by other
+                        white space: tabs vs spaces, indentation, trailing white space; C14_crlf_same: CR LF line
+                        ends instead of LF, when no string literal runs over a line end (needed: example).
    Nothing of this file is left as an unproved Prop except the refuted first formulation
    C14_nl_in_brackets_statement_level (kept visible next to its refutation).  *)
 From Coq Require Import String List NArith Bool Arith.
@@ -326,16 +329,13 @@ Definition C14_pWhitespace : pat := nth 73 gen_table C14_dpat.
 Definition C14_before_string : live := firstn 6 (start_live gen_table).
 Definition C14_after_string : live := firstn 65 (skipn 7 (start_live gen_table)).
 
+(* the facts about the table are checked by computation *)
+Ltac c14_table_fact := first [vm_compute; reflexivity | split; vm_compute; reflexivity].
+
 Theorem C14_ws_insert_whole_input : ws_insert_statement gen_table.
 Proof.
-  apply (Lex.WsInsert.ws_insert gen_table C14_pString C14_pComment C14_pWhitespace C14_before_string C14_after_string).
-  - vm_compute. reflexivity.
-  - vm_compute. reflexivity.
-  - vm_compute. reflexivity.
-  - split; vm_compute; reflexivity.
-  - vm_compute. reflexivity.
-  - reflexivity.
-  - split; reflexivity.
+  apply (Lex.WsInsert.ws_insert gen_table C14_pString C14_pComment C14_pWhitespace C14_before_string C14_after_string);
+    c14_table_fact.
 Qed.
 Print Assumptions C14_ws_insert_whole_input.
 
@@ -345,6 +345,54 @@ Theorem C14_ws_insert_spelled : forall s1 s2 ws rs1, ws <> [] -> forallb is_ws_c
   raw_lex (length (s1 ++ s2)) gen_table (s1 ++ s2) = rs1 ++ raw_lex (length s2) gen_table s2 ->
   kinds (lex gen_table (s1 ++ ws ++ s2)) = kinds (lex gen_table (s1 ++ s2)).
 Proof. intros s1 s2 ws rs1 Hne Hws Hc H. apply C14_ws_insert_whole_input; [exact Hne|exact Hws|exists rs1; split; assumption]. Qed.
+
+(* ---- re-spacing: other white space between the tokens, at any number of places at once ----
+   [weave] builds the new text from the raw tokens of [s] (Logos.raw_lex tiles the input: tokens, skipped white
+   space, pieces that are no token) and one white-space string per raw token: a skipped token is REPLACED by its
+   string (not empty), any other token is FOLLOWED by its string (possibly empty); [u0] goes in front.
+   Tabs instead of spaces, other indentation, trailing white space, CR before LF are all of this form.
+   The statement is an equation, so it also reads from the re-spaced text to the original. *)
+Theorem C14_skip_ok : Lex.LexerProofs.skip_ok gen_table = true.
+Proof. vm_compute. reflexivity. Qed.
+
+Theorem C14_respace : forall s u0 us,
+  length us = length (raw_lex (length s) gen_table s) ->
+  forallb is_ws_char u0 = true ->
+  Forall Lex.WsInsert.u_ok (combine (raw_lex (length s) gen_table s) us) ->
+  kinds (lex gen_table (u0 ++ Lex.WsInsert.weave (combine (raw_lex (length s) gen_table s) us)))
+  = kinds (lex gen_table s).
+Proof.
+  apply (Lex.WsInsert.respace gen_table C14_pString C14_pComment C14_pWhitespace C14_before_string C14_after_string);
+    c14_table_fact.
+Qed.
+Print Assumptions C14_respace.
+
+(* the definitions used in the statement, pinned *)
+Example C14_respace_defs :
+  (forall ru, Lex.WsInsert.nt ru
+              = if Lex.WsInsert.is_skip (fst ru) then snd ru else (r_text (fst ru) ++ snd ru)%list) /\
+  (forall rus, Lex.WsInsert.weave rus = concat (map Lex.WsInsert.nt rus)) /\
+  (forall r, Lex.WsInsert.is_skip r = match r_kind r with KSkip => true | _ => false end) /\
+  (forall ru, Lex.WsInsert.u_ok ru <->
+              forallb is_ws_char (snd ru) = true /\ (Lex.WsInsert.is_skip (fst ru) = true -> snd ru <> [])).
+Proof. split; [reflexivity|split; [reflexivity|split; [reflexivity|intros ru; split; intros H; exact H]]]. Qed.
+
+(* CRLF line ends: every LF becomes CR LF.  Hypothesis (decidable, by computation on the input): no raw token
+   other than the line-break token itself contains a line break - that is, no string literal runs over a line end. *)
+Theorem C14_crlf_same : forall s,
+  forallb Lex.WsInsert.nl_alone (raw_lex (length s) gen_table s) = true ->
+  kinds (lex gen_table (Lex.WsInsert.crlf s)) = kinds (lex gen_table s).
+Proof.
+  apply (Lex.WsInsert.crlf_same gen_table C14_pString C14_pComment C14_pWhitespace C14_before_string C14_after_string);
+    c14_table_fact.
+Qed.
+Print Assumptions C14_crlf_same.
+
+Example C14_crlf_defs :
+  (forall s, Lex.WsInsert.crlf s = flat_map (fun c => if (c =? 10)%N then [13%N; 10%N] else [c]) s) /\
+  (forall r, Lex.WsInsert.nl_alone r
+             = (eqb_list (r_text r) [10%N] || negb (existsb (N.eqb 10) (r_text r)))).
+Proof. split; reflexivity. Qed.
 
 (* ---- non-vacuity ---- *)
 Definition nm (s : string) : name := ascii_name s.
@@ -495,6 +543,31 @@ Proof. vm_compute. reflexivity. Qed.
 Example C14_example_ws_lex :
   kinds (lex gen_table (codes "foo  +	1 // c")) = kinds (lex gen_table (codes "foo+1")).
 Proof. vm_compute. reflexivity. Qed.
+
+(* re-spacing and CRLF on a small program: the hypotheses hold, the texts differ, the tokens do not *)
+Definition C14_src_lf : list N :=
+  (codes "loop a < 3 do // count" ++ [10]%N ++ codes "  a = a + 1" ++ [10]%N ++ codes "end" ++ [10]%N)%list.
+Definition C14_src_respaced : list N :=
+  (codes "	loop	a  <	3 do   // count  " ++ [13; 10]%N ++ codes "		a =  a	+ 1 	" ++ [13; 10]%N ++ codes "end  " ++ [10]%N)%list.
+Example C14_example_respace :
+  kinds (lex gen_table C14_src_respaced) = kinds (lex gen_table C14_src_lf) /\ C14_src_respaced <> C14_src_lf.
+Proof. split; [vm_compute; reflexivity|discriminate]. Qed.
+Example C14_example_crlf :
+  forallb Lex.WsInsert.nl_alone (raw_lex (length C14_src_lf) gen_table C14_src_lf) = true /\
+  Lex.WsInsert.crlf C14_src_lf
+  = (codes "loop a < 3 do // count" ++ [13; 10]%N ++ codes "  a = a + 1" ++ [13; 10]%N ++ codes "end" ++ [13; 10]%N)%list /\
+  kinds (lex gen_table (Lex.WsInsert.crlf C14_src_lf)) = kinds (lex gen_table C14_src_lf).
+Proof.
+  assert (H : forallb Lex.WsInsert.nl_alone (raw_lex (length C14_src_lf) gen_table C14_src_lf) = true)
+    by (vm_compute; reflexivity).
+  split; [exact H|split; [vm_compute; reflexivity|exact (C14_crlf_same C14_src_lf H)]].
+Qed.
+(* the hypothesis of C14_crlf_same is needed: a string literal over a line end has the line end in its payload *)
+Example C14_example_crlf_string :
+  let s := (codes "x = ""a" ++ [10]%N ++ codes "b""")%list in
+  forallb Lex.WsInsert.nl_alone (raw_lex (length s) gen_table s) = false /\
+  kinds (lex gen_table (Lex.WsInsert.crlf s)) <> kinds (lex gen_table s).
+Proof. split; [vm_compute; reflexivity|vm_compute; discriminate]. Qed.
 
 Print Assumptions C14_table_ok.
 Print Assumptions C14_arrow_ok.
